@@ -15,17 +15,26 @@ PTS = [[0.0, 0.0], [2.0, 0.0], [0.0, 2.0], [2.0, 2.0], [1.0, 0.7]]
 
 def gen(rng):
     return {"part": "unitlink", "pair": rng.randrange(len(PAIRS)), "dtype": rng.choice(["float", "float", "int"]),
-            "via": rng.choice(["direct", "scale", "nearest", "linear"]), "values": [rng.randint(-30, 60) for _ in PTS]}
+            "via": rng.choice(["direct", "scale", "nearest", "linear", "static"]), "values": [rng.randint(-30, 60) for _ in PTS],
+            # the producer may hand over a quantity that is already in the *consumer's* units (converted to its own at the
+            # push, back at the pull); the output may have to park the publication on disk
+            "push_as_consumer": rng.random() < 0.3, "limit0": rng.random() < 0.3, "pulls": rng.choice([1, 2, 3])}
 
 
 def run(case):
     su, du, _f, _o = PAIRS[case["pair"]]
     grid = fm.UnstructuredPoints(PTS)
-    out = fm.Output(name="out", info=fm.Info(time=T0, grid=grid, units=su))
-    inp = fm.Input(name="in", info=fm.Info(time=None, grid=fm.UnstructuredPoints(PTS), units=du))
     via = case["via"]
+    static = via == "static"
+    out = fm.Output(name="out", static=static, info=fm.Info(time=None if static else T0, grid=grid, units=su))
+    inp = fm.Input(name="in", static=static, info=fm.Info(time=None, grid=fm.UnstructuredPoints(PTS), units=du))
+    tmp = None
     try:
-        if via == "direct":
+        if case.get("limit0"):
+            import tempfile
+            tmp = tempfile.mkdtemp(prefix="finam_verif_")
+            out.memory_limit, out.memory_location = 0, tmp
+        if via in ("direct", "static"):
             out >> inp
         elif via == "scale":
             out >> fm.adapters.Scale(1.0) >> inp
@@ -36,12 +45,25 @@ def run(case):
         inp.ping()
         inp.exchange_info()
         data = np.array(case["values"], dtype=int if case["dtype"] == "int" else float)
-        out.push_data(data, T0)
-        v = inp.pull_data(T0)
+        if case.get("push_as_consumer"):
+            f, o = PAIRS[case["pair"]][2], PAIRS[case["pair"]][3]
+            data = fm.UNITS.Quantity(np.array(case["values"], dtype=float) * f + o, du)   # the same field, stated in the consumer's units
+        out.push_data(data, None if static else T0)
+        v = None
+        for _ in range(case.get("pulls", 1)):     # (a static input answers the later reads from its cache)
+            v = inp.pull_data(T0)
         mag = np.ma.getdata(fm.data.get_magnitude(v)).reshape(-1)
         return {"ok": [float(x) for x in mag], "units": str(v.units)}
     except Exception as e:  # noqa
         return {"err": type(e).__name__, "msg": str(e)[:160]}
+    finally:
+        try:
+            out.finalize()
+        except Exception:  # noqa
+            pass
+        if tmp:
+            import shutil
+            shutil.rmtree(tmp, ignore_errors=True)
 
 
 def oracle(case, impl):
